@@ -8,6 +8,7 @@ import (
 	"encoding/binary"
 	"fmt"
 	"io"
+	"math"
 	"sync"
 
 	"golang.org/x/crypto/chacha20poly1305"
@@ -134,6 +135,12 @@ func DeriveSessionKey(sharedSecret [KeySize]byte, streamID uint64,
 // and the remaining bits as a counter, ensuring nonce uniqueness.
 func (s *SessionKey) Encrypt(plaintext []byte) ([]byte, error) {
 	s.mu.Lock()
+	if s.sendNonce == math.MaxUint64 {
+		// The counter must never wrap: a wrapped counter would reuse nonces
+		// under the same key. The last value is reserved (see Decrypt).
+		s.mu.Unlock()
+		return nil, fmt.Errorf("nonce space exhausted")
+	}
 	nonce := s.buildSendNonce()
 	s.sendNonce++
 	s.mu.Unlock()
@@ -165,21 +172,31 @@ func (s *SessionKey) Decrypt(ciphertext []byte) ([]byte, error) {
 	var nonce [NonceSize]byte
 	copy(nonce[:], ciphertext[:NonceSize])
 
-	// Verify nonce is in expected range (optional, helps detect replay/reorder)
+	// The receive state is only touched while the lock is held, and only
+	// after the message has been authenticated.
 	s.mu.Lock()
+	defer s.mu.Unlock()
+
+	// The direction prefix must be the peer's send prefix. Both directions
+	// share one key, so without this check a message could be reflected
+	// back to its own sender.
 	expectedNonce := s.buildRecvNonce()
-	// Allow some slack for out-of-order delivery (up to 1024 messages ahead)
+	if binary.BigEndian.Uint32(nonce[:4]) != binary.BigEndian.Uint32(expectedNonce[:4]) {
+		return nil, fmt.Errorf("unexpected nonce direction prefix")
+	}
+
+	// Reject replayed and reordered messages: the counter must not be
+	// below the next expected value.
 	nonceValue := binary.BigEndian.Uint64(nonce[4:])
 	expectedValue := binary.BigEndian.Uint64(expectedNonce[4:])
 	if nonceValue < expectedValue {
-		s.mu.Unlock()
 		return nil, fmt.Errorf("nonce too old: received %d, expected >= %d", nonceValue, expectedValue)
 	}
-	// Update expected nonce if this one is higher
-	if nonceValue >= s.recvNonce {
-		s.recvNonce = nonceValue + 1
+	// The last counter value is never used by Encrypt; accepting it would
+	// wrap the receive counter to zero and re-open the replay window.
+	if nonceValue == math.MaxUint64 {
+		return nil, fmt.Errorf("nonce counter exhausted")
 	}
-	s.mu.Unlock()
 
 	aead, err := chacha20poly1305.New(s.key[:])
 	if err != nil {
@@ -190,6 +207,9 @@ func (s *SessionKey) Decrypt(ciphertext []byte) ([]byte, error) {
 	if err != nil {
 		return nil, fmt.Errorf("decrypt: %w", err)
 	}
+
+	// Authenticated: advance the receive counter past this message.
+	s.recvNonce = nonceValue + 1
 
 	return plaintext, nil
 }
